@@ -1,8 +1,23 @@
 # bin/check configuration of property C12 (a single dict expression)
 {'harness': 'c12',
  'props': 'Props/C12.v',
- 'models': ['Model/Heap.v', 'Model/HeapReaders.v', 'Model/HeapReadersHier.v'],
- 'trusted': ['the reader bridge (xml/json/hier/edi_reader_respects_api) is relative to the reader models of '
+ 'models': ['Model/Heap.v', 'Model/HeapReset.v', 'Model/HeapOpsGen.v', 'Model/HeapReaders.v',
+            'Model/HeapReadersHier.v'],
+ 'trusted': ['extracted from idr/node.go on every run (coq/Gen/NodeReset.v, coq/Gen/NodeOps.v): the field list '
+             'of Node, the assignments of reset(), and the bodies of AddChild and of RemoveAndReleaseTree up to '
+             'its recycle call as pointer programs; the theorems tie the model to them '
+             '(reset_source_is_blank, node_fields_modelled, add_child_source_is_model, unlink_source_is_model) '
+             'and the case check replays histories with the extracted programs '
+             '(case_check_runs_extracted_programs); a shape the extractor does not recognise, or a changed '
+             'pointer update, stops these theorems from checking.  Trusted here: the interpreter of '
+             'Model/HeapOpsGen.v (selector = load, assignment = store, nil/dangling dereference = panic) and '
+             'the go/ast extractor',
+             'still hand-transcribed and held to the implementation only by the correspondence check and the '
+             'oracle: recycle (the child loop that saves NextSibling before the recursive call, reset, Put), '
+             'CreateNode/CreateXMLNode/CreateJSONNode (Get, then the three payload assignments), '
+             'and the order of calls the readers issue (Model/HeapReaders*.v)',
+             'the reader bridge (xml/json/hier/edi_reader_respects_api, *_error_issues_no_call, '
+             'read_after_terminal_touches_nothing) is relative to the reader models of '
              'Model/Stream.v and Model/Hier.v (validated against the implementation by C04/C05/C17); the columns of a '
              'record and the xpath decisions enter as arbitrary functions',
              'sync.Pool enters as an arbitrary-choice multiset: Get may return any pooled node or call New; '
@@ -13,4 +28,6 @@
              'the Go allocator never reuses the address of a node that is still referenced (the harness '
              'keeps every node alive)'],
  'assumptions': ['API preconditions (pre_b): AddChild(p, n) - p live, n a live detached root, p not in the '
-                 'tree of n; RemoveAndReleaseTree(n) - n live (not released before)']}
+                 'tree of n; RemoveAndReleaseTree(n) - n live (not released before).  '
+                 'add_child_source_is_model / unlink_source_is_model / reset_source_is_blank assume nothing: '
+                 'every heap, every argument']}
